@@ -25,10 +25,10 @@ func (t *Target) AccessDeniedHTTP(r *http.Request) bool {
 	if err != nil {
 		log.Printf("[ERROR] failed to get host from remote header %s: %s",
 			r.RemoteAddr, err.Error())
-		return false
+		return true
 	}
 
-	ip := net.ParseIP(host)
+	ip := parseIP(host)
 	if ip == nil {
 		log.Printf("[WARN] failed to parse remote address %s", host)
 	}
@@ -52,9 +52,8 @@ func (t *Target) AccessDeniedHTTP(r *http.Request) bool {
 			if xip == host {
 				continue
 			}
-			if ip = net.ParseIP(xip); ip == nil {
+			if ip = parseIP(xip); ip == nil {
 				log.Printf("[WARN] failed to parse xff address %s", xip)
-				continue
 			}
 			if t.denyByIP(ip) {
 				return true
@@ -89,8 +88,20 @@ func (t *Target) AccessDeniedTCP(c net.Conn) bool {
 	return false
 }
 
+// parseIP parses an IP address literal. An IPv6 zone ("fe80::1%eth0") is
+// ignored since access rules are matched against the address only.
+func parseIP(s string) net.IP {
+	if i := strings.IndexByte(s, '%'); i >= 0 {
+		s = s[:i]
+	}
+	return net.ParseIP(s)
+}
+
+// denyByIP checks the ip against the rules of the target. An address which
+// could not be parsed (nil) is outside of every block: it is denied by an
+// allow list and not matched by a deny list.
 func (t *Target) denyByIP(ip net.IP) bool {
-	if ip == nil || len(t.accessRules) == 0 {
+	if len(t.accessRules) == 0 {
 		return false
 	}
 	// check allow (whitelist) first if it exists
